@@ -44,6 +44,11 @@ func genCLI(t *rapid.T) cliCase {
 	c.Cmd = rapid.SampledFrom(cliCmds).Draw(t, "cmd")
 	mixedOK := c.Cmd == "consensus" || c.Cmd == "maxchar" || c.Cmd == "stats" || c.Cmd == "char" || c.Cmd == "char-per-sequences"
 	c.Ali, _ = genAli(t, mixedOK, 1)
+	switch c.Cmd {
+	case "mutations-list", "mutations-ref", "per-sequences", "mutations-unique", "gaps-unique", "diff-counts":
+		sprinkle(t, &c.Ali, nil)
+	}
+	// (after the special characters, so that the L making the file a protein file survives)
 	if c.Ali.Alphabet == "aa" {
 		has := false
 		for _, r := range c.Ali.Rows {
@@ -200,6 +205,16 @@ func TestCLI(t *testing.T) {
 			return o, nil
 		}
 		if r.Exit != 0 {
+			if a.Alphabet == "nt" && (c.Cmd == "mutations-ref" || c.Cmd == "mutations-list" || c.Cmd == "per-sequences") {
+				for _, row := range a.Rows {
+					if strings.Contains(row.Seq, "?") {
+						// '?' has no nucleotide code: a reported error is an admissible answer
+						o.Ambiguous++
+						o.Class("nucleotide-'?':error-accepted")
+						return o, nil
+					}
+				}
+			}
 			return fail("exit %d on a valid request", r.Exit)
 		}
 		tb := table(r.Stdout)
@@ -323,7 +338,7 @@ func TestCLI(t *testing.T) {
 			}
 			o.NonTrivial = len(hdr) > 1
 		case "gaps-unique", "mutations-unique":
-			gu, mu := make([]int, n), make([]int, n)
+			gu, mu, muO := make([]int, n), make([]int, n), make([]int, n)
 			for j := 0; j < l; j++ {
 				cells := col(a, j)
 				cnt := map[uint8]int{}
@@ -336,22 +351,25 @@ func TestCLI(t *testing.T) {
 					}
 					if ch == '-' {
 						gu[i2]++
+					} else if isSpecial(a.Alphabet, ch) {
+						muO[i2]++ // '*', '.', '?', X in nucleotides: counted or not
 					} else if ch != w {
 						mu[i2]++
 					}
 				}
 			}
-			want := gu
+			want, opt := gu, make([]int, n)
 			if c.Cmd == "mutations-unique" {
-				want = mu
+				want, opt = mu, muO
 			}
 			if len(tb) != n {
 				return fail("%d lines expected", n)
 			}
 			for i2, row := range a.Rows {
-				if nb, _ := strconv.Atoi(tb[i2][len(tb[i2])-1]); len(tb[i2]) != 2 || tb[i2][0] != row.Name || nb != want[i2] {
+				if nb, _ := strconv.Atoi(tb[i2][len(tb[i2])-1]); len(tb[i2]) != 2 || tb[i2][0] != row.Name || nb < want[i2] || nb > want[i2]+opt[i2] {
 					return fail("line %v: %d expected for %s", tb[i2], want[i2], row.Name)
 				}
+				o.Ambiguous += opt[i2]
 				if want[i2] > 0 {
 					o.NonTrivial = true
 				}
@@ -361,9 +379,9 @@ func TestCLI(t *testing.T) {
 				return fail("%d lines expected", n)
 			}
 			for i2, row := range a.Rows {
-				n1, _ := naiveMutations(a.Alphabet, row.Seq, ref, false)
-				n2, _ := naiveMutations(a.Alphabet, row.Seq, ref, true)
-				if nb, _ := strconv.Atoi(tb[i2][len(tb[i2])-1]); len(tb[i2]) != 2 || tb[i2][0] != row.Name || (nb != n1 && nb != n2) {
+				nb, _ := strconv.Atoi(tb[i2][len(tb[i2])-1])
+				okN, n1 := numAdmissible(a.Alphabet, row.Seq, ref, nb)
+				if len(tb[i2]) != 2 || tb[i2][0] != row.Name || !okN {
 					return fail("line %v: %d mutations of %q against %q", tb[i2], n1, row.Seq, ref)
 				}
 				if n1 > 0 {
@@ -385,13 +403,13 @@ func TestCLI(t *testing.T) {
 				if i2 == c.Ref {
 					continue
 				}
-				_, l1 := naiveMutations(a.Alphabet, row.Seq, ref, false)
-				_, l2 := naiveMutations(a.Alphabet, row.Seq, ref, true)
+				_, _, l1 := naiveMutations(a.Alphabet, row.Seq, ref, false, nil)
 				got := ""
 				if len(tb[k]) > 1 {
 					got = tb[k][1]
 				}
-				if tb[k][0] != row.Name || len(tb[k]) > 2 || (got != showMuts(l1) && got != showMuts(l2)) {
+				okL, _ := listAdmissibleBy(a.Alphabet, row.Seq, ref, func(l []mut) bool { return showMuts(l) == got })
+				if tb[k][0] != row.Name || len(tb[k]) > 2 || !okL {
 					return fail("line %v: %q against %q gives [%s]", tb[k], row.Seq, ref, showMuts(l1))
 				}
 				if len(l1) > 0 {
@@ -537,7 +555,7 @@ func TestCLI(t *testing.T) {
 				if len(f) != len(tb[0]) || f[idx["sequence"]] != row.Name {
 					return fail("line %v", f)
 				}
-				gu, mu := 0, 0
+				gu, mu, muO := 0, 0, 0
 				for j := 0; j < l; j++ {
 					cnt := 0
 					for _, ch := range col(a, j) {
@@ -547,15 +565,16 @@ func TestCLI(t *testing.T) {
 					}
 					if cnt == 1 && row.Seq[j] == '-' {
 						gu++
+					} else if cnt == 1 && isSpecial(a.Alphabet, row.Seq[j]) {
+						muO++
 					} else if cnt == 1 && row.Seq[j] != w {
 						mu++
 					}
 				}
-				n1, _ := naiveMutations(a.Alphabet, row.Seq, ref, false)
-				n2, _ := naiveMutations(a.Alphabet, row.Seq, ref, true)
 				geti := func(h string) int { v, _ := strconv.Atoi(f[idx[h]]); return v }
+				okN, n1 := numAdmissible(a.Alphabet, row.Seq, ref, geti("mutref"))
 				gaps := strings.Count(row.Seq, "-")
-				if geti("gaps") != gaps || geti("gapsuniques") != gu || geti("mutuniques") != mu || (geti("mutref") != n1 && geti("mutref") != n2) || geti("length") != l-gaps {
+				if geti("gaps") != gaps || geti("gapsuniques") != gu || geti("mutuniques") < mu || geti("mutuniques") > mu+muO || !okN || geti("length") != l-gaps {
 					return fail("line %v: gaps %d gapsuniques %d mutuniques %d mutref %d length %d expected", f, gaps, gu, mu, n1, l-gaps)
 				}
 				wc := naiveCounts([]byte(row.Seq))
